@@ -12,20 +12,13 @@ NOTE = ("trusted: CrossHair's models of bytes/str/dict/re and z3; the model libr
         "checked at set-up by z3 lemmas and a differential test against CPython); the environment stubs named in "
         "the evidence file's assumptions; engine runs CPython 3.11, replays run the repo's 3.12")
 
-# property id -> (design section, text of the level claim)
-CHECKS = {}
-
-
-def claim(pid, design_ref, text):
-    CHECKS[pid] = (design_ref, text)
-
-
 NOT_YET = "check not built yet in this round (harness planned in DESIGN.md section 5)"
 
 
 def main():
     props = [json.loads(l)["id"] for l in open(os.path.join(VERIF, "properties.jsonl"))]
-    from vlib import claims  # noqa: F401  (fills CHECKS)
+    from vlib import claims
+    CHECKS = claims.CHECKS
     checks, na = [], []
     for pid in props:
         have = glob.glob(os.path.join(VERIF, "harness", pid + "_*.py"))
